@@ -14,7 +14,8 @@ Property oracle (on the real code, every run):
 """
 import itertools, json, random
 from collections import defaultdict
-from pony.orm import Database, Required, Optional, Set, db_session, perm, has_perm, can_view, can_edit, can_create, can_delete
+from pony.orm import Database, Required, Optional, Set, db_session, perm, has_perm
+from pony.orm.core import can_view, can_edit, can_create, can_delete
 from pony.orm import set_current_user, user_groups_getter, user_roles_getter, obj_labels_getter
 from pony.orm import core
 
@@ -186,11 +187,11 @@ def declare(w, decls):
         try:
             with w.db.set_perms_for(*[w.ents[i] for i in d['ents']]):
                 kw = {}
-                if d['groups']: kw['groups'] = d['groups'] if len(d['groups']) > 1 else None
-                if d['groups'] and len(d['groups']) == 1: kw = {'group': d['groups'][0]}
+                if len(d['groups']) == 1: kw['group'] = d['groups'][0]
+                elif d['groups']: kw['groups'] = d['groups']
                 if d['roles']: kw['role'] = ' '.join(d['roles'])
                 if d['labels']: kw['labels'] = d['labels']
-                rule = perm(*d['perms'], **kw) if len(d['perms']) > 1 else perm(', '.join(d['perms']), **kw)
+                rule = perm(*d['perms'], **kw) if len(d['perms']) != 1 else perm(', '.join(d['perms']), **kw)
                 bad = 0
                 for x in d['excl']:
                     try: rule.exclude(w.ents[x['e']] if 'e' in x else w.attrs[x['a']])
